@@ -33,6 +33,6 @@ assert n==5, "runtime/chan.go changed: %d bubble checks found" % n
 open(sys.argv[4],"w").write(ch)
 PY
 cat > "$OUT/overlay.json" <<JSON
-{"Replace": {"$GR/src/runtime/select.go": "$OUT/runtime_select.go", "$GR/src/runtime/chan.go": "$OUT/runtime_chan.go"}}
+{"Replace": {"$GR/src/runtime/select.go": "$OUT/runtime_select.go", "$GR/src/runtime/chan.go": "$OUT/runtime_chan.go", "/repo/workflow/storage/cosmosdb/zz_verif.go": "$VERIF/overlay/cosmosdb_zz_verif.go"}}
 JSON
 echo "$OUT/overlay.json"
